@@ -154,6 +154,21 @@ PROPS["C15"] = A("TestSim_C15",
     assumptions=COMMON_ASSUME + ["an action that falls on the exact instant of the establishment timeout is judged leniently (timer and request are concurrent)",
         "media payloads are opaque strings; ICE server configuration is a fixed stub"])
 
+PROPS["C10"] = A("TestSim_C10",
+    "one evaluation = one simulated run of the 'presence' workload: 3-4 users x 1-2 sessions (gRPC and long-polling) on 1-2 groups and p2p topics; the last user is a pure observer whose sessions stay attached to 'me' only "
+    "and record, per source, what they were last told ({get sub} answer when attaching, then every {pres} on 'me'); the other users' sessions perform 4-20 sequential actions drawn from: connect as a foreground or a background "
+    "session, attach/detach 'me', abrupt disconnect, attach/detach a group or p2p topic, mute (drop P) and un-mute, publish, read note, eviction and re-invitation by the group owner, and waits of 1-9 s around the 4 s "
+    "idle-unload and 5 s deferred-notification timers. After two settling periods (24 simulated s): for every p2p partner of the observer with P on both sides the observer's last word is 'online' iff that user has a "
+    "foreground session attached to 'me' (white-box), and for every group the observer is a full member of with P it is 'online' iff the group has an attached session. Leak predicate over every {pres} frame delivered "
+    "to any client during the run: the recipient has (or had within the 3 simulated seconds before delivery) a subscription to the source topic - else 'presence-to-stranger' - and for on/off/ua/upd/msg/read/recv/del also "
+    "effective P in the store or in the loaded topic's own view; acs and gone notices are exempt. Online counters of every loaded group/p2p topic equal the attached foreground sessions per user and are never negative. "
+    "Non-trivial = at least one observer judgement and at least two online/offline flips seen by the observer; distinct = distinct (program hash, schedule hash).",
+    quick=(8, 150, 400), thorough=(16, 3000, 3000),
+    probes=["fault.disconnect", "c10.p2p_judged", "c10.group_judged"],
+    assumptions=COMMON_ASSUME + ["convergence is judged only for observers that never attach to the topics they are told about (a session attached to a topic is deliberately skipped by that topic's 'me' notifications)",
+        "a frame is justified by the recipient's state at any instant of the 3 simulated seconds before its delivery (long-polling clients receive frames at their next poll)",
+        "cluster proxies of 'me' topics are not simulated"])
+
 PROPS["C16"] = A("TestSim_C16",
     "one evaluation = one simulated run of the 'files' workload: a small population attached to a group, then 4-16 strictly sequential actions drawn from: upload (multipart body with a file of 0-9000 bytes around the "
     "4096-byte limit; content kinds PNG / HTML / PDF / plain text / binary with an allowed or a bogus client-supplied type / XML; methods POST, PUT, GET, DELETE, HEAD; API key in header, query, form field, cookie, "
@@ -183,7 +198,7 @@ PROPS["C17"] = A("TestSim_C17",
     "Adoption: after the last fault the run continues until one node has been the only self-declared leader in one term at two observations 20 heartbeats apart (no liveness bound is demanded: the property states "
     "none; runs that never stabilise within 12 such rounds are counted by a probe); every node must then name that leader in that term and have its ring signature. Non-trivial = at least one vote request was sent and at least one leader was observed; distinct = distinct (program hash, schedule hash).",
     quick=(8, 40, 600), thorough=(16, 1200, 3000),
-    probes=["fault.partition", "fault.partition_one_way", "fault.msg_loss", "fault.reply_loss", "fault.msg_delay", "fault.partition_refused", "c17.dial_refused", "c17.minority_leader_judged", "c17.signature_gate_judged", "c17.stable_leader_judged"],
+    probes=["fault.partition", "fault.partition_one_way", "fault.msg_loss", "fault.reply_loss", "fault.msg_delay", "fault.partition_refused", "c17.dial_refused", "c17.minority_leader_judged", "c17.signature_gate_judged", "c17.signature_gate_established_judged", "c17.stable_leader_judged"],
     assumptions=["the ring laws over all key sets and all orderings (order independence, totality, minimal movement) are pure functions of the node list and are sampled in situ only (40 names per pair of nodes per phase)",
                  "node crash with loss of state, clock skew between nodes and paused nodes are not simulated (the property quantifies over nodes that have kept their state); every node reads the same simulated clock",
                  "the wire is replaced at the six places where cluster.go touches *rpc.Client / net.Dial (bin/vseams.py, scratch copy only); net/rpc itself, TCP and gob type registration are not exercised",
@@ -218,7 +233,6 @@ PROPS["C18"] = {
 NOT_APPLICABLE = {
     "C05": "not claimed. The algebra clauses (canonical text form, parse/print round trip, delta laws over 256x256 pairs) are pure functions of their input: no schedule, clock or fault for a simulator to decide. "
            "The remaining clause (parties that replay change notifications converge to the authoritative permissions) is a simulation target, designed in DESIGN.md section 5 (C05), but its tracker clients / proxy topic were not built in the time available",
-    "C10": "not claimed: a simulation target (presence convergence at quiescence, leak predicate), designed in DESIGN.md section 5 (C10); the workload and oracle were not built in the time available. The online-counter clause is checked white-box by the C14 check",
     "C19": "not claimed. Query parsing, tag rewriting and tag normalisation are pure functions of one input; the clauses about histories of tag updates and masked/reserved namespaces (DESIGN.md section 5, C19) were not built in the time available",
     "C20": "pure functions of one input (id codecs, name spellings, JSON<->protobuf converters): no schedule, clock, fault, crash point or second party for a simulator to decide; see DESIGN.md section 6",
 }
